@@ -9,12 +9,14 @@ fn vf_get_plan() {
     let td = crate::core::testing::new_testdir().unwrap();
     let wp = td.path();
     // a: default command directory; a/b: custom command directory + definitions; c: nothing on disk
-    for f in ["a/monorail/cmd/build.sh", "a/monorail/cmd/lint.fix.sh", "a/monorail/cmd/test.py", "a/monorail/cmd/testing.py", "a/b/scripts/lint.rb", "a/b/scripts/build.sh", "tools/b.sh"] { vf_touch(&wp.join(f)); }
+    for f in ["a/monorail/cmd/build.sh", "a/monorail/cmd/lint.fix.sh", "a/monorail/cmd/test.py", "a/monorail/cmd/testing.py", "a/b/scripts/lint.rb", "a/b/scripts/build.sh", "tools/b.sh", "shared/cmds/build.sh", "shared/cmds/lint.py", "tools/e-build.sh", "d/README", "e/README"] { vf_touch(&wp.join(f)); }
     vf_touch(&wp.join("c/README"));
     let cfg: core::Config = serde_json::from_str(r#"{"targets":[
         {"path":"a"},
         {"path":"a/b","commands":{"path":"a/b/scripts","definitions":{"build":{"path":"tools/b.sh"},"lint":{"path":""}}}},
-        {"path":"c","commands":{"definitions":{"test":{"path":"c/run-tests"}}}}]}"#).unwrap();
+        {"path":"c","commands":{"definitions":{"test":{"path":"c/run-tests"}}}},
+        {"path":"d","commands":{"path":"shared/cmds"}},
+        {"path":"e","commands":{"path":"shared/cmds","definitions":{"build":{"path":"tools/e-build.sh"}}}}]}"#).unwrap();
     let index = core::Index::new(&cfg, &cfg.get_target_path_set(), wp).unwrap();
     let mut argmap = ArgMap::new();
     let mut m: HashMap<String, HashMap<String, Vec<String>>> = HashMap::new();
@@ -24,8 +26,8 @@ fn vf_get_plan() {
     argmap.merge(m);
     let cmds: Vec<String> = vec!["build".into(), "lint".into(), "test".into(), "nothere".into()];
     let (mut checked, mut bad) = (0u64, 0u64);
-    for groups in [vec![vec!["a".to_string(), "c".to_string()], vec!["a/b".to_string()]], vec![vec!["a/b".to_string()], vec!["c".to_string()], vec!["a".to_string()]], vec![vec!["c".to_string()]], vec![]] {
-        for order in [vec![0usize, 1, 2, 3], vec![3, 2, 1, 0], vec![1]] {
+    for groups in [vec![vec!["a".to_string(), "c".to_string()], vec!["a/b".to_string()]], vec![vec!["a/b".to_string()], vec!["c".to_string()], vec!["a".to_string()]], vec![vec!["c".to_string()]], vec![], vec![vec!["d".to_string(), "e".to_string()]], vec![vec!["e".to_string()], vec!["d".to_string(), "a".to_string()]]] {
+        for order in [vec![0usize, 1, 2, 3], vec![3, 2, 1, 0], vec![1], vec![0, 1, 0], vec![2, 0, 2, 0, 0]] {
             checked += 1;
             let commands: Vec<&String> = order.iter().map(|i| &cmds[*i]).collect();
             let run_path = wp.join("out/run/1");
@@ -45,6 +47,9 @@ fn vf_get_plan() {
                         ("a/b", "build") => Some(wp.join("tools/b.sh")),
                         ("a/b", "lint") => Some(wp.join("a/b/scripts/lint.rb")),
                         ("c", "test") => Some(wp.join("c/run-tests")),
+                        ("d", "build") => Some(wp.join("shared/cmds/build.sh")),
+                        ("d", "lint") | ("e", "lint") => Some(wp.join("shared/cmds/lint.py")),
+                        ("e", "build") => Some(wp.join("tools/e-build.sh")),
                         _ => None,
                     };
                     let exp_args: Option<Vec<String>> = match (t.path.as_str(), cmd) { ("a", "build") => Some(vec!["--release".into(), "-v".into()]), ("a/b", "lint") => Some(vec!["--fix".into()]), ("c", "build") => Some(vec![]), _ => None };
